@@ -18,6 +18,17 @@ from ..render import render_parts
 @st.composite
 def generated_case(draw, max_blocks):
     blocks = draw(universe.script(2, max_blocks, unsupported_p=3))
+    if draw(st.integers(0, 7)) == 0:
+        blocks = [draw(universe.block(["tables"]))] + blocks + [draw(universe.block(["like"]))]
+    # CREATE TABLE x LIKE y where y is a table of an earlier block of the same script: what x yields must not depend on that
+    # (nor may anything done to x later reach y)
+    defined = []
+    for b in blocks:
+        if b["k"] == "tables":
+            defined += [((t["schema"] + ".") if t["schema"] else "") + t["name"] for t in b["c"]["tables"]]
+        elif b["k"] == "like" and defined and draw(st.booleans()):
+            b["c"]["src"] = draw(st.sampled_from(defined))
+            b["c"]["alter_add"] = draw(st.booleans())
     n = len([b for b in blocks if b["k"] != "raw"])
     perm = draw(st.permutations(list(range(n))))
     # eof: the script's last line has no line end (a file without a trailing newline)
